@@ -70,6 +70,7 @@ def _drop_cuts(e):
 
 # classes of C01 that concern the shape of the AST only
 VALUE_CLASSES = {'names-undefined-unless-sequence', 'none-dropped-at-frame-start', 'open-list-spliced',
+                 'internal-override-key-in-ast',
                  'pattern-first-group-only'}
 
 
